@@ -105,11 +105,463 @@ pub open spec fn join_tags(tags: Seq<(Option<&str>, &str)>, n: int) -> Seq<char>
 }
 } // mod spec
 
+pub mod roundtrip {
+// ---------------------------------------------------------------------------------------------
+// C01, second sentence (pure lemma track): the line as TEXT, its parser, and the theorem
+// wf(f) ==> parse(text_line(f)) == f.  The formatter's line() is connected to text_line() by
+// MetricFormatter::lemma_line_is_text in module `code`.
+// ---------------------------------------------------------------------------------------------
+use vstd::prelude::*;
+
+
+pub open spec fn free(s: Seq<char>, c: char) -> bool { forall|i: int| 0 <= i < s.len() ==> s[i] != c }
+
+pub open spec fn index_of(s: Seq<char>, c: char) -> int
+    decreases s.len()
+{
+    if s.len() == 0 { 0 } else if s[0] == c { 0 } else { 1 + index_of(s.drop_first(), c) }
+}
+pub open spec fn occurs(s: Seq<char>, c: char) -> bool { index_of(s, c) < s.len() }
+pub open spec fn head(s: Seq<char>, c: char) -> Seq<char> { s.subrange(0, index_of(s, c)) }
+pub open spec fn tail(s: Seq<char>, c: char) -> Seq<char> { if occurs(s, c) { s.subrange(index_of(s, c) + 1, s.len() as int) } else { Seq::empty() } }
+
+pub proof fn lemma_index_bounds(s: Seq<char>, c: char)
+    ensures 0 <= index_of(s, c) <= s.len()
+    decreases s.len()
+{
+    if s.len() > 0 && s[0] != c { lemma_index_bounds(s.drop_first(), c); }
+}
+
+pub proof fn lemma_free_no_index(a: Seq<char>, c: char)
+    requires free(a, c)
+    ensures index_of(a, c) == a.len(), !occurs(a, c)
+    decreases a.len()
+{
+    if a.len() > 0 {
+        assert(a[0] != c);
+        assert(free(a.drop_first(), c)) by {
+            assert forall|i: int| 0 <= i < a.drop_first().len() implies a.drop_first()[i] != c by { assert(a.drop_first()[i] == a[i + 1]); }
+        }
+        lemma_free_no_index(a.drop_first(), c);
+    }
+}
+
+pub proof fn lemma_index_of(a: Seq<char>, c: char, b: Seq<char>)
+    requires free(a, c)
+    ensures index_of(a + seq![c] + b, c) == a.len()
+    decreases a.len()
+{
+    let s = a + seq![c] + b;
+    if a.len() == 0 {
+        assert(s[0] == c);
+    } else {
+        assert(s[0] == a[0]);
+        assert(s.drop_first() =~= a.drop_first() + seq![c] + b);
+        assert(free(a.drop_first(), c)) by {
+            assert forall|i: int| 0 <= i < a.drop_first().len() implies a.drop_first()[i] != c by { assert(a.drop_first()[i] == a[i + 1]); }
+        }
+        lemma_index_of(a.drop_first(), c, b);
+    }
+}
+
+/// the first separator of a ++ [c] ++ b with c not in a is at |a|
+pub proof fn lemma_split_first(a: Seq<char>, c: char, b: Seq<char>)
+    requires free(a, c)
+    ensures occurs(a + seq![c] + b, c), head(a + seq![c] + b, c) =~= a, tail(a + seq![c] + b, c) =~= b
+{
+    lemma_index_of(a, c, b);
+}
+
+// ---- split everywhere / join
+pub open spec fn split(s: Seq<char>, c: char) -> Seq<Seq<char>>
+    decreases s.len()
+{
+    if !occurs(s, c) { seq![s] } else {
+        // tail is strictly shorter
+        if tail(s, c).len() < s.len() { seq![head(s, c)] + split(tail(s, c), c) } else { seq![s] }
+    }
+}
+pub open spec fn join(parts: Seq<Seq<char>>, c: char) -> Seq<char>
+    decreases parts.len()
+{
+    if parts.len() == 0 { Seq::empty() }
+    else if parts.len() == 1 { parts[0] }
+    else { parts[0] + seq![c] + join(parts.drop_first(), c) }
+}
+pub open spec fn all_free(parts: Seq<Seq<char>>, c: char) -> bool { forall|i: int| 0 <= i < parts.len() ==> free(#[trigger] parts[i], c) }
+
+pub proof fn lemma_split_join(parts: Seq<Seq<char>>, c: char)
+    requires parts.len() >= 1, all_free(parts, c)
+    ensures split(join(parts, c), c) =~= parts
+    decreases parts.len()
+{
+    if parts.len() == 1 {
+        lemma_free_no_index(parts[0], c);
+    } else {
+        let rest = parts.drop_first();
+        assert(all_free(rest, c)) by { assert forall|i: int| 0 <= i < rest.len() implies free(#[trigger] rest[i], c) by { assert(rest[i] == parts[i + 1]); } }
+        lemma_split_join(rest, c);
+        let s = join(parts, c);
+        assert(s == parts[0] + seq![c] + join(rest, c));
+        lemma_split_first(parts[0], c, join(rest, c));
+        assert(tail(s, c).len() < s.len());
+        assert(split(s, c) =~= seq![parts[0]] + rest);
+    }
+}
+
+// ------------------------------------------------------------------------------------------
+// the line as text, and its parser
+// ------------------------------------------------------------------------------------------
+pub struct Fields {
+    pub name: Seq<char>,
+    pub vals: Seq<Seq<char>>,
+    pub code: Seq<char>,
+    pub rate: Option<Seq<char>>,
+    pub tags: Seq<(Option<Seq<char>>, Seq<char>)>,
+    pub cid: Option<Seq<char>>,
+    pub ts: Option<Seq<char>>,
+}
+
+pub open spec fn tag_txt(t: (Option<Seq<char>>, Seq<char>)) -> Seq<char> {
+    match t.0 { Some(k) => k + seq![':'] + t.1, None => t.1 }
+}
+pub open spec fn tag_txts(tags: Seq<(Option<Seq<char>>, Seq<char>)>) -> Seq<Seq<char>> {
+    Seq::new(tags.len(), |i: int| tag_txt(tags[i]))
+}
+pub open spec fn opt_sec(o: Option<Seq<char>>, marker: Seq<char>) -> Seq<Seq<char>> {
+    match o { Some(x) => seq![marker + x], None => Seq::empty() }
+}
+pub open spec fn tag_sec(tags: Seq<(Option<Seq<char>>, Seq<char>)>) -> Seq<Seq<char>> {
+    if tags.len() == 0 { Seq::empty() } else { seq![seq!['#'] + join(tag_txts(tags), ',')] }
+}
+pub open spec fn sections(f: Fields) -> Seq<Seq<char>> {
+    seq![join(f.vals, ':'), f.code] + opt_sec(f.rate, seq!['@']) + tag_sec(f.tags) + opt_sec(f.cid, seq!['c', ':']) + opt_sec(f.ts, seq!['T'])
+}
+/// <name>:<v1>[:<v2>...]|<type>[|@<rate>][|#<tag>,...][|c:<container>][|T<timestamp>]
+pub open spec fn text_line(f: Fields) -> Seq<char> {
+    f.name + seq![':'] + join(sections(f), '|')
+}
+
+pub open spec fn parse_tag(t: Seq<char>) -> (Option<Seq<char>>, Seq<char>) {
+    if occurs(t, ':') { (Some(head(t, ':')), tail(t, ':')) } else { (None, t) }
+}
+pub open spec fn parse_tags(s: Seq<char>) -> Seq<(Option<Seq<char>>, Seq<char>)> {
+    let parts = split(s, ',');
+    Seq::new(parts.len(), |i: int| parse_tag(parts[i]))
+}
+pub open spec fn starts1(s: Seq<char>, c: char) -> bool { s.len() >= 1 && s[0] == c }
+pub open spec fn starts2(s: Seq<char>, c: char, d: char) -> bool { s.len() >= 2 && s[0] == c && s[1] == d }
+
+pub open spec fn parse(s: Seq<char>) -> Fields {
+    let secs = split(tail(s, ':'), '|');
+    let n = secs.len() as int;
+    let has_rate = 2 < n && starts1(secs[2], '@');
+    let i3 = if has_rate { 3int } else { 2int };
+    let has_tags = i3 < n && starts1(secs[i3], '#');
+    let i4 = if has_tags { i3 + 1 } else { i3 };
+    let has_cid = i4 < n && starts2(secs[i4], 'c', ':');
+    let i5 = if has_cid { i4 + 1 } else { i4 };
+    let has_ts = i5 < n && starts1(secs[i5], 'T');
+    Fields {
+        name: head(s, ':'),
+        vals: split(secs[0], ':'),
+        code: if n > 1 { secs[1] } else { Seq::empty() },
+        rate: if has_rate { Some(secs[2].drop_first()) } else { None },
+        tags: if has_tags { parse_tags(secs[i3].drop_first()) } else { Seq::empty() },
+        cid: if has_cid { Some(secs[i4].subrange(2, secs[i4].len() as int)) } else { None },
+        ts: if has_ts { Some(secs[i5].drop_first()) } else { None },
+    }
+}
+
+pub open spec fn opt_free(o: Option<Seq<char>>, c: char) -> bool { match o { Some(x) => free(x, c), None => true } }
+pub open spec fn tag_ok(t: (Option<Seq<char>>, Seq<char>)) -> bool {
+    &&& free(t.1, ':') && free(t.1, ',') && free(t.1, '|')
+    &&& (t.0 matches Some(k) ==> free(k, ':') && free(k, ',') && free(k, '|'))
+}
+/// "the supplied strings contain none of the delimiters"
+pub open spec fn wf(f: Fields) -> bool {
+    &&& free(f.name, ':')
+    &&& f.vals.len() >= 1
+    &&& all_free(f.vals, ':') && all_free(f.vals, '|')
+    &&& free(f.code, '|')
+    &&& opt_free(f.rate, '|') && opt_free(f.cid, '|') && opt_free(f.ts, '|')
+    &&& forall|i: int| 0 <= i < f.tags.len() ==> tag_ok(#[trigger] f.tags[i])
+}
+
+pub proof fn lemma_free_concat(a: Seq<char>, b: Seq<char>, c: char)
+    requires free(a, c), free(b, c)
+    ensures free(a + b, c)
+{
+    assert forall|i: int| 0 <= i < (a + b).len() implies (a + b)[i] != c by {
+        if i < a.len() { assert((a + b)[i] == a[i]); } else { assert((a + b)[i] == b[i - a.len()]); }
+    }
+}
+
+pub proof fn lemma_join_free(parts: Seq<Seq<char>>, sep: char, c: char)
+    requires all_free(parts, c), sep != c
+    ensures free(join(parts, sep), c)
+    decreases parts.len()
+{
+    if parts.len() == 0 {
+    } else if parts.len() == 1 {
+    } else {
+        let rest = parts.drop_first();
+        assert(all_free(rest, c)) by { assert forall|i: int| 0 <= i < rest.len() implies free(#[trigger] rest[i], c) by { assert(rest[i] == parts[i + 1]); } }
+        lemma_join_free(rest, sep, c);
+        assert(free(seq![sep], c));
+        lemma_free_concat(parts[0], seq![sep], c);
+        lemma_free_concat(parts[0] + seq![sep], join(rest, sep), c);
+    }
+}
+
+pub proof fn lemma_parse_tag(t: (Option<Seq<char>>, Seq<char>))
+    requires tag_ok(t)
+    ensures parse_tag(tag_txt(t)).0 == t.0 || (parse_tag(tag_txt(t)).0 matches Some(k) && t.0 matches Some(k2) && k =~= k2),
+        parse_tag(tag_txt(t)).1 =~= t.1,
+        (parse_tag(tag_txt(t)).0 is Some) == (t.0 is Some),
+{
+    match t.0 {
+        Some(k) => { lemma_split_first(k, ':', t.1); }
+        None => { lemma_free_no_index(t.1, ':'); }
+    }
+}
+
+pub open spec fn same_opt(a: Option<Seq<char>>, b: Option<Seq<char>>) -> bool {
+    match (a, b) { (Some(x), Some(y)) => x =~= y, (None, None) => true, _ => false }
+}
+pub open spec fn same_fields(a: Fields, b: Fields) -> bool {
+    &&& a.name =~= b.name
+    &&& a.vals.len() == b.vals.len() && (forall|i: int| 0 <= i < a.vals.len() ==> #[trigger] a.vals[i] =~= b.vals[i])
+    &&& a.code =~= b.code
+    &&& same_opt(a.rate, b.rate) && same_opt(a.cid, b.cid) && same_opt(a.ts, b.ts)
+    &&& a.tags.len() == b.tags.len()
+    &&& forall|i: int| 0 <= i < a.tags.len() ==> same_opt((#[trigger] a.tags[i]).0, b.tags[i].0) && a.tags[i].1 =~= b.tags[i].1
+}
+
+proof fn lemma_tag_txts_free(tags: Seq<(Option<Seq<char>>, Seq<char>)>)
+    requires forall|i: int| 0 <= i < tags.len() ==> tag_ok(#[trigger] tags[i])
+    ensures all_free(tag_txts(tags), ','), all_free(tag_txts(tags), '|')
+{
+    assert forall|i: int| 0 <= i < tag_txts(tags).len() implies free(#[trigger] tag_txts(tags)[i], ',') && free(tag_txts(tags)[i], '|') by {
+        let t = tags[i];
+        assert(tag_ok(t));
+        match t.0 {
+            Some(k) => {
+                assert(free(seq![':'], ',') && free(seq![':'], '|'));
+                lemma_free_concat(k, seq![':'], ','); lemma_free_concat(k + seq![':'], t.1, ',');
+                lemma_free_concat(k, seq![':'], '|'); lemma_free_concat(k + seq![':'], t.1, '|');
+            }
+            None => {}
+        }
+    }
+}
+
+proof fn lemma_sections_free(f: Fields)
+    requires wf(f)
+    ensures all_free(sections(f), '|')
+{
+    lemma_join_free(f.vals, ':', '|');
+    lemma_tag_txts_free(f.tags);
+    lemma_join_free(tag_txts(f.tags), ',', '|');
+    assert(free(seq!['@'], '|') && free(seq!['#'], '|') && free(seq!['c', ':'], '|') && free(seq!['T'], '|'));
+    if f.rate is Some { lemma_free_concat(seq!['@'], f.rate->Some_0, '|'); }
+    if f.tags.len() > 0 { lemma_free_concat(seq!['#'], join(tag_txts(f.tags), ','), '|'); }
+    if f.cid is Some { lemma_free_concat(seq!['c', ':'], f.cid->Some_0, '|'); }
+    if f.ts is Some { lemma_free_concat(seq!['T'], f.ts->Some_0, '|'); }
+    let secs = sections(f);
+    assert forall|i: int| 0 <= i < secs.len() implies free(#[trigger] secs[i], '|') by {
+        let a = seq![join(f.vals, ':'), f.code];
+        let b = opt_sec(f.rate, seq!['@']);
+        let c = tag_sec(f.tags);
+        let d = opt_sec(f.cid, seq!['c', ':']);
+        let e = opt_sec(f.ts, seq!['T']);
+        assert(secs == a + b + c + d + e);
+        if i < 2 { assert(secs[i] == a[i]); }
+        else if i < 2 + b.len() { assert(secs[i] == b[i - 2]); }
+        else if i < 2 + b.len() + c.len() { assert(secs[i] == c[i - 2 - b.len()]); }
+        else if i < 2 + b.len() + c.len() + d.len() { assert(secs[i] == d[i - 2 - b.len() - c.len()]); }
+        else { assert(secs[i] == e[i - 2 - b.len() - c.len() - d.len()]); }
+    }
+}
+
+/// C01, second sentence: whenever the supplied strings contain none of the delimiters, parsing the
+/// line back yields exactly the supplied name, value list, kind, rate, tag sequence (key:value or
+/// bare value, in order), container id and timestamp.
+pub proof fn theorem_round_trip(f: Fields)
+    requires wf(f)
+    ensures same_fields(parse(text_line(f)), f)
+{
+    let secs = sections(f);
+    let j = join(secs, '|');
+    let s = text_line(f);
+    lemma_sections_free(f);
+    lemma_split_first(f.name, ':', j);
+    assert(tail(s, ':') =~= j);
+    lemma_split_join(secs, '|');
+    let ps = split(tail(s, ':'), '|');
+    assert(ps =~= secs);
+    lemma_split_join(f.vals, ':');
+    let a = seq![join(f.vals, ':'), f.code];
+    let b = opt_sec(f.rate, seq!['@']);
+    let c = tag_sec(f.tags);
+    let d = opt_sec(f.cid, seq!['c', ':']);
+    let e = opt_sec(f.ts, seq!['T']);
+    assert(secs == a + b + c + d + e);
+    assert(secs[0] == a[0] && secs[1] == a[1]);
+    let n = secs.len() as int;
+    // position of each optional section
+    let i3 = 2 + b.len() as int;
+    let i4 = i3 + c.len() as int;
+    let i5 = i4 + d.len() as int;
+    if b.len() > 0 { assert(secs[2] == b[0]); assert(b[0].drop_first() =~= f.rate->Some_0); }
+    if c.len() > 0 { assert(secs[i3] == c[0]); }
+    if d.len() > 0 { assert(secs[i4] == d[0]); assert(d[0].subrange(2, d[0].len() as int) =~= f.cid->Some_0); }
+    if e.len() > 0 { assert(secs[i5] == e[0]); assert(e[0].drop_first() =~= f.ts->Some_0); }
+    // the first characters of the sections are distinct markers, so each optional section is recognised
+    // exactly when present
+    assert(b.len() > 0 ==> starts1(secs[2], '@'));
+    assert(b.len() == 0 && 2 < n ==> !starts1(secs[2], '@')) by {
+        if b.len() == 0 && 2 < n {
+            if c.len() > 0 { assert(secs[2] == c[0]); } else if d.len() > 0 { assert(secs[2] == d[0]); } else { assert(secs[2] == e[0]); }
+        }
+    }
+    assert(c.len() > 0 ==> starts1(secs[i3], '#'));
+    assert(c.len() == 0 && i3 < n ==> !starts1(secs[i3], '#')) by {
+        if c.len() == 0 && i3 < n { if d.len() > 0 { assert(secs[i3] == d[0]); } else { assert(secs[i3] == e[0]); } }
+    }
+    assert(d.len() > 0 ==> starts2(secs[i4], 'c', ':'));
+    assert(d.len() == 0 && i4 < n ==> !starts2(secs[i4], 'c', ':')) by {
+        if d.len() == 0 && i4 < n { assert(secs[i4] == e[0]); }
+    }
+    assert(e.len() > 0 ==> starts1(secs[i5], 'T'));
+    assert(e.len() == 0 ==> i5 >= n);
+    // tags
+    if c.len() > 0 {
+        let tt = tag_txts(f.tags);
+        lemma_tag_txts_free(f.tags);
+        lemma_split_join(tt, ',');
+        assert(c[0].drop_first() =~= join(tt, ','));
+        let pt = parse_tags(c[0].drop_first());
+        assert(split(join(tt, ','), ',') =~= tt);
+        assert(pt.len() == f.tags.len());
+        assert forall|i: int| 0 <= i < pt.len() implies same_opt((#[trigger] pt[i]).0, f.tags[i].0) && pt[i].1 =~= f.tags[i].1 by {
+            lemma_parse_tag(f.tags[i]);
+            assert(split(c[0].drop_first(), ',')[i] =~= tag_txt(f.tags[i]));
+        }
+    }
+    let p = parse(s);
+    assert(p.name =~= f.name);
+    assert(p.vals =~= f.vals);
+    assert(p.code =~= f.code);
+}
+
+/// front-recursive join agrees with appending at the back
+pub proof fn lemma_join_push(parts: Seq<Seq<char>>, x: Seq<char>, c: char)
+    requires parts.len() >= 1
+    ensures join(parts.push(x), c) =~= join(parts, c) + seq![c] + x
+    decreases parts.len()
+{
+    if parts.len() == 1 {
+        assert(parts.push(x).drop_first() =~= seq![x]);
+        assert(join(seq![x], c) == x);
+    } else {
+        let rest = parts.drop_first();
+        assert(parts.push(x).drop_first() =~= rest.push(x));
+        lemma_join_push(rest, x, c);
+    }
+}
+
+pub open spec fn opt_txt(o: Option<Seq<char>>, marker: Seq<char>) -> Seq<char> {
+    match o { Some(x) => seq!['|'] + marker + x, None => Seq::empty() }
+}
+pub open spec fn tags_txt(tags: Seq<(Option<Seq<char>>, Seq<char>)>) -> Seq<char> {
+    if tags.len() == 0 { Seq::empty() } else { seq!['|', '#'] + join(tag_txts(tags), ',') }
+}
+
+proof fn lemma_join_opt(parts: Seq<Seq<char>>, o: Option<Seq<char>>, marker: Seq<char>)
+    requires parts.len() >= 1
+    ensures join(parts + opt_sec(o, marker), '|') =~= join(parts, '|') + opt_txt(o, marker),
+        (parts + opt_sec(o, marker)).len() >= 1,
+{
+    match o {
+        Some(x) => { assert(parts + opt_sec(o, marker) =~= parts.push(marker + x)); lemma_join_push(parts, marker + x, '|'); }
+        None => { assert(parts + opt_sec(o, marker) =~= parts); }
+    }
+}
+proof fn lemma_join_tagsec(parts: Seq<Seq<char>>, tags: Seq<(Option<Seq<char>>, Seq<char>)>)
+    requires parts.len() >= 1
+    ensures join(parts + tag_sec(tags), '|') =~= join(parts, '|') + tags_txt(tags),
+        (parts + tag_sec(tags)).len() >= 1,
+{
+    if tags.len() > 0 {
+        let x = seq!['#'] + join(tag_txts(tags), ',');
+        assert(parts + tag_sec(tags) =~= parts.push(x));
+        lemma_join_push(parts, x, '|');
+        assert(seq!['|'] + x =~= seq!['|', '#'] + join(tag_txts(tags), ','));
+    } else {
+        assert(parts + tag_sec(tags) =~= parts);
+    }
+}
+
+/// the line, section after section (the shape the formatter's contract uses)
+pub proof fn lemma_text_line_flat(f: Fields)
+    ensures text_line(f) =~= f.name + seq![':'] + join(f.vals, ':') + seq!['|'] + f.code
+        + opt_txt(f.rate, seq!['@']) + tags_txt(f.tags) + opt_txt(f.cid, seq!['c', ':']) + opt_txt(f.ts, seq!['T'])
+{
+    let s0 = seq![join(f.vals, ':'), f.code];
+    assert(s0 =~= seq![join(f.vals, ':')].push(f.code));
+    lemma_join_push(seq![join(f.vals, ':')], f.code, '|');
+    let s1 = s0 + opt_sec(f.rate, seq!['@']);
+    lemma_join_opt(s0, f.rate, seq!['@']);
+    let s2 = s1 + tag_sec(f.tags);
+    lemma_join_tagsec(s1, f.tags);
+    let s3 = s2 + opt_sec(f.cid, seq!['c', ':']);
+    lemma_join_opt(s2, f.cid, seq!['c', ':']);
+    let s4 = s3 + opt_sec(f.ts, seq!['T']);
+    lemma_join_opt(s3, f.ts, seq!['T']);
+    assert(sections(f) == s4);
+}
+
+
+// ---- must-fail probes for the round-trip development
+//@PROBE roundtrip_needs_delimiter_freedom
+proof fn probe_roundtrip_needs_wf(f: Fields)
+    ensures same_fields(parse(text_line(f)), f)
+{
+    lemma_text_line_flat(f);
+}
+//@PROBE roundtrip_not_vacuous
+proof fn probe_roundtrip_not_vacuous(f: Fields)
+    requires wf(f)
+    ensures false
+{
+    theorem_round_trip(f);
+}
+} // mod roundtrip
+
 pub mod code {
 use vstd::prelude::*;
 use vstd::string::*;
 use super::model::*;
 use super::spec::*;
+use super::roundtrip::*;
+
+pub open spec fn render_seq<T: VDisplay>(vals: Seq<T>) -> Seq<Seq<char>> { Seq::new(vals.len(), |i: int| vals[i].render()) }
+
+pub proof fn lemma_join_vals_front<T: VDisplay>(vals: Seq<T>, n: int)
+    requires 1 <= n <= vals.len()
+    ensures join_vals(vals, n) =~= join(render_seq(vals).subrange(0, n), ':')
+    decreases n
+{
+    let rs = render_seq(vals);
+    if n == 1 {
+        assert(rs.subrange(0, 1) =~= seq![rs[0]]);
+    } else {
+        lemma_join_vals_front(vals, n - 1);
+        assert(rs.subrange(0, n) =~= rs.subrange(0, n - 1).push(rs[n - 1]));
+        lemma_join_push(rs.subrange(0, n - 1), rs[n - 1], ':');
+    }
+}
 
 //@ITEM cadence/src/builder.rs :: enum MetricType\b
 
@@ -135,6 +587,28 @@ impl MetricValue {
             MetricValue::PackedUnsigned(x) => x@.len(),
             MetricValue::PackedFloat(x) => x@.len(),
             _ => 1,
+        }
+    }
+    /// the list of rendered values (one element for a scalar)
+    pub closed spec fn rendered(&self) -> Seq<Seq<char>> {
+        match self {
+            MetricValue::Signed(v) => seq![dec_i64(*v)],
+            MetricValue::PackedSigned(v) => Seq::new(v@.len(), |i: int| dec_i64(v@[i])),
+            MetricValue::Unsigned(v) => seq![dec_u64(*v)],
+            MetricValue::PackedUnsigned(v) => Seq::new(v@.len(), |i: int| dec_u64(v@[i])),
+            MetricValue::Float(v) => seq![dec_f64(*v)],
+            MetricValue::PackedFloat(v) => Seq::new(v@.len(), |i: int| dec_f64(v@[i])),
+        }
+    }
+    proof fn lemma_rendered(&self)
+        requires self.count_spec() >= 1
+        ensures self.render() =~= join(self.rendered(), ':'), self.rendered().len() == self.count_spec()
+    {
+        match self {
+            MetricValue::PackedSigned(v) => { lemma_join_vals_front(v@, v@.len() as int); assert(render_seq(v@).subrange(0, v@.len() as int) =~= self.rendered()); }
+            MetricValue::PackedUnsigned(v) => { lemma_join_vals_front(v@, v@.len() as int); assert(render_seq(v@).subrange(0, v@.len() as int) =~= self.rendered()); }
+            MetricValue::PackedFloat(v) => { lemma_join_vals_front(v@, v@.len() as int); assert(render_seq(v@).subrange(0, v@.len() as int) =~= self.rendered()); }
+            _ => {}
         }
     }
     //@FN cadence/src/builder.rs :: impl MetricValue :: count
@@ -202,6 +676,71 @@ impl<'a> MetricFormatter<'a> {
         &&& self.prefix == o.prefix &&& self.key == o.key &&& self.val == o.val &&& self.type_ == o.type_
         &&& self.timestamp == o.timestamp &&& self.sampling_rate == o.sampling_rate &&& self.container_id == o.container_id
         &&& self.base_size == o.base_size
+    }
+
+    // ---- connection to the text-level round-trip theorem (module roundtrip)
+    pub closed spec fn abs(&self) -> Fields {
+        Fields {
+            name: self.prefix@ + self.key@,
+            vals: self.val.rendered(),
+            code: self.type_.render(),
+            rate: match self.sampling_rate { Some(r) => Some(dec_f64(r)), None => None },
+            tags: Seq::new(self.tags@.len(), |i: int| (match self.tags@[i].0 { Some(k) => Some(k@), None => None }, self.tags@[i].1@)),
+            cid: match self.container_id { Some(c) => Some(c@), None => None },
+            ts: match self.timestamp { Some(t) => Some(dec_u64(t)), None => None },
+        }
+    }
+
+    proof fn lemma_join_tags_front(&self, n: int)
+        requires 1 <= n <= self.tags@.len()
+        ensures join_tags(self.tags@, n) =~= join(tag_txts(self.abs().tags).subrange(0, n), ',')
+        decreases n
+    {
+        let tt = tag_txts(self.abs().tags);
+        assert forall|i: int| 0 <= i < self.tags@.len() implies #[trigger] tt[i] =~= tag_text(self.tags@[i]) by {}
+        if n == 1 {
+            assert(tt.subrange(0, 1) =~= seq![tt[0]]);
+        } else {
+            self.lemma_join_tags_front(n - 1);
+            assert(tt.subrange(0, n) =~= tt.subrange(0, n - 1).push(tt[n - 1]));
+            lemma_join_push(tt.subrange(0, n - 1), tt[n - 1], ',');
+        }
+    }
+
+    /// line() (the spec the real `format` is proved against) is text_line of the supplied fields
+    proof fn lemma_line_is_text(&self)
+        requires self.val.count_spec() >= 1
+        ensures self.line() =~= text_line(self.abs())
+    {
+        reveal_strlit(":"); reveal_strlit("|"); reveal_strlit("|@"); reveal_strlit("|#"); reveal_strlit("|c:"); reveal_strlit("|T");
+        let f = self.abs();
+        lemma_text_line_flat(f);
+        self.val.lemma_rendered();
+        assert(":"@ =~= seq![':'] && "|"@ =~= seq!['|']);
+        assert(self.s_base() =~= f.name + seq![':'] + join(f.vals, ':') + seq!['|'] + f.code);
+        assert("|@"@ =~= seq!['|'] + seq!['@']);
+        assert(self.s_rate() =~= opt_txt(f.rate, seq!['@']));
+        if self.tags@.len() > 0 {
+            self.lemma_join_tags_front(self.tags@.len() as int);
+            assert(tag_txts(f.tags).subrange(0, self.tags@.len() as int) =~= tag_txts(f.tags));
+            assert("|#"@ =~= seq!['|', '#']);
+        }
+        assert(self.s_tags() =~= tags_txt(f.tags));
+        assert("|c:"@ =~= seq!['|'] + seq!['c', ':']);
+        assert(self.s_cid() =~= opt_txt(f.cid, seq!['c', ':']));
+        assert("|T"@ =~= seq!['|'] + seq!['T']);
+        assert(self.s_ts() =~= opt_txt(f.ts, seq!['T']));
+    }
+
+    /// C01: whenever the supplied strings (and the std numerals) contain none of the delimiters,
+    /// parsing the emitted line back yields exactly the supplied fields
+    proof fn theorem_c01_round_trip(&self)   // [C01] parsing the line back yields exactly the supplied name, value list, kind, rate, tag sequence, container id and timestamp
+        requires self.val.count_spec() >= 1, wf(self.abs())
+        ensures same_fields(parse(self.line()), self.abs())
+    {
+        self.lemma_line_is_text();
+        theorem_round_trip(self.abs());
+        assert(self.line() == text_line(self.abs()));
     }
 
     //@FN cadence/src/builder.rs :: impl<'a> MetricFormatter<'a> :: from_val :: vis=
